@@ -402,7 +402,19 @@ static std::string case_S(const std::vector<std::string> &fld)
             out += "\tRT=" + rt;
             bool same = !back.is_null() && eq(*back, *e);
             // EQ=2: not eq, but it prints the same 15 significant digits (doubles)
-            bool same_printed = !same && !back.is_null() && str(*back) == s;
+            // (signed zeros are eq: "-0.0" and "0.0" count as the same printed digits)
+            auto unsign_zero = [](const std::string &t) {
+                std::string o;
+                for (size_t i = 0; i < t.size(); i++) {
+                    if (t[i] == '-' && t.compare(i + 1, 3, "0.0") == 0
+                        && (i + 4 >= t.size() || !isdigit((unsigned char)t[i + 4]))
+                        && (i == 0 || !isdigit((unsigned char)t[i - 1])))
+                        continue;
+                    o += t[i];
+                }
+                return o;
+            };
+            bool same_printed = !same && !back.is_null() && unsign_zero(str(*back)) == unsign_zero(s);
             out += std::string("\tEQ=") + (same ? "1" : (same_printed ? "2" : "0"));
             if (!same && !same_printed)
                 oracle += " parse(str(e)) is not eq to e;";
